@@ -5,9 +5,14 @@ package main
 // (which carry a unique first column) are compared as a multiset with Model.Analytic.analyze.
 
 import (
+	"context"
 	"fmt"
 	"math/rand"
 	"strings"
+
+	"github.com/mithrandie/csvq/lib/parser"
+	"github.com/mithrandie/csvq/lib/query"
+	"github.com/mithrandie/csvq/lib/value"
 )
 
 func init() { runners["C17"] = runC17 }
@@ -15,7 +20,7 @@ func init() { runners["C17"] = runC17 }
 func runC17(seed int64, tier string, out string) {
 	r := rand.New(rand.NewSource(seed))
 	meta := newMeta("C17", seed)
-	meta.Rule = "tables with a unique first column plus 2-3 columns of small domains (ties, NULLs; 0-14 rows, some 200-400 rows run with cpu 4 so that several workers take partitions) and one analytic function per query: ROW_NUMBER, RANK, DENSE_RANK, CUME_DIST, PERCENT_RANK, NTILE(n), FIRST/LAST/NTH_VALUE [IGNORE NULLS], LAG/LEAD [offset [, default]] [IGNORE NULLS], COUNT/SUM/AVG/MIN/MAX [DISTINCT] and COUNT(*) with OVER, with PARTITION BY (0-2 expressions), ORDER BY (0-2 keys; made unique by the id column for order-sensitive functions, with ties for the rank family) and ROWS frames (all combinations of UNBOUNDED/n PRECEDING, CURRENT ROW, n FOLLOWING, UNBOUNDED FOLLOWING). Non-trivial = at least two rows in some partition; distinct = distinct SQL texts."
+	meta.Rule = "tables with a unique first column plus 2-3 columns of small domains (ties, NULLs; 0-14 rows, some 200-400 rows run with cpu 4 so that several workers take partitions) and one analytic function per query: ROW_NUMBER, RANK, DENSE_RANK, CUME_DIST, PERCENT_RANK, NTILE(n), FIRST/LAST/NTH_VALUE [IGNORE NULLS], LAG/LEAD [offset [, default]] [IGNORE NULLS], COUNT/SUM/AVG/MIN/MAX [DISTINCT] and COUNT(*) with OVER, with PARTITION BY (0-2 expressions), ORDER BY (0-2 keys; made unique by the id column for order-sensitive functions, with ties for the rank family) and ROWS frames (all combinations of UNBOUNDED/n PRECEDING, CURRENT ROW, n FOLLOWING, UNBOUNDED FOLLOWING). Plus, compared on the implementation itself: a user-defined aggregate with an extra argument and OVER against SUM ... OVER times the row's own argument, and LAG / LEAD whose default names a column against a NULL default (cpu 1-8). Non-trivial = at least two rows in some partition; distinct = distinct SQL texts."
 	g := &qGen{r: r, pool: qPool(), noDiv: true}
 	nTables, perTable := 30, 16
 	if tier == "thorough" {
@@ -312,6 +317,109 @@ func runC17(seed int64, tier string, out string) {
 				distinct[sql] = true
 			}
 			id++
+		}
+		// ---- user-defined aggregates with OVER, and arguments that are not the first ---------------------
+		// uwsum(v, w) OVER (clause) must be SUM(INTEGER(v)) OVER (the same clause) * INTEGER(w) of the row's own w,
+		// and a "constant" argument (the default of LAG / LEAD) that names a column is evaluated without a
+		// current record, i.e. as NULL: both are compared on the implementation itself (the built-in SUM ... OVER
+		// and LAG with a literal default are compared with the model above)
+		if nrows >= 2 {
+			proc := query.NewProcessor(tx)
+			decl, _, perr := parser.Parse("DECLARE uwsum AGGREGATE (list, @w) AS BEGIN VAR @s; VAR @x; WHILE @x IN list DO IF INTEGER(@x) IS NULL THEN CONTINUE; END IF; IF @s IS NULL THEN @s := 0; END IF; @s := @s + INTEGER(@x); END WHILE; RETURN @s * INTEGER(@w); END;", "", false, false)
+			if perr != nil {
+				panic("harness: " + perr.Error())
+			}
+			for _, st := range decl {
+				if _, err := proc.ExecuteStatement(context.Background(), st); err != nil {
+					panic("harness: cannot declare the aggregate: " + err.Error())
+				}
+			}
+			np := 3
+			if big {
+				np = 4
+			}
+			for k := 0; k < np; k++ {
+				v, wc := dataCols[r.Intn(len(dataCols))], dataCols[r.Intn(len(dataCols))]
+				var parts []string
+				for i := 0; i < r.Intn(3); i++ {
+					parts = append(parts, dataCols[r.Intn(len(dataCols))].sql)
+				}
+				over := ""
+				if len(parts) > 0 {
+					over = "PARTITION BY " + strings.Join(parts, ", ")
+				}
+				switch r.Intn(3) {
+				case 1:
+					over += " ORDER BY t.c1"
+				case 2:
+					over += " ORDER BY t.c1 ROWS BETWEEN " + []string{"1 PRECEDING AND 1 FOLLOWING", "UNBOUNDED PRECEDING AND CURRENT ROW", "CURRENT ROW AND 2 FOLLOWING", "2 PRECEDING AND 1 PRECEDING"}[r.Intn(4)]
+				}
+				cpu := []int{1, 2, 4, 8}[r.Intn(4)]
+				if big {
+					cpu = []int{4, 8}[r.Intn(2)]
+				}
+				tx.Flags.SetCPU(cpu)
+				tx.Flags.SetStrictEqual(false)
+				pairs := [][3]string{
+					{"user-aggregate-over", fmt.Sprintf("SELECT t.c1, uwsum(%s, %s) OVER (%s) FROM t", v.sql, wc.sql, over),
+						fmt.Sprintf("SELECT t.c1, SUM(INTEGER(%s)) OVER (%s) * INTEGER(%s) FROM t", v.sql, over, wc.sql)},
+				}
+				if k%2 == 1 {
+					lag := []string{"LAG", "LEAD"}[r.Intn(2)]
+					po := over
+					if !strings.Contains(po, "ORDER BY") {
+						po += " ORDER BY t.c1"
+					}
+					po = strings.Split(po, " ROWS ")[0]
+					pairs = append(pairs, [3]string{"constant-argument", fmt.Sprintf("SELECT t.c1, %s(%s, 1, %s) OVER (%s) FROM t", lag, v.sql, wc.sql, po),
+						fmt.Sprintf("SELECT t.c1, %s(%s, 1, NULL) OVER (%s) FROM t", lag, v.sql, po)})
+				}
+				for _, pq := range pairs {
+					res := [2]map[string]string{}
+					var errs [2]string
+					for j := 0; j < 2; j++ {
+						view, err := selectViewIn(proc.ReferenceScope, pq[1+j])
+						if err != nil {
+							if strings.Contains(err.Error(), "syntax error") {
+								panic("harness: generated query is not valid: " + pq[1+j] + ": " + err.Error())
+							}
+							errs[j] = err.Error()
+							continue
+						}
+						res[j] = map[string]string{}
+						for _, row := range viewRows(view) {
+							// SUM answers with a float, integer arithmetic with an integer: compare numbers as floats
+							cell := showVal(row[1])
+							if f := value.ToFloat(row[1]); !value.IsNull(f) {
+								cell = showVal(f)
+							}
+							res[j][showVal(row[0])] = cell
+						}
+					}
+					meta.Evaluations++
+					meta.Distribution["function:"+pq[0]]++
+					distinct[pq[1]] = true
+					bad := ""
+					if (errs[0] == "") != (errs[1] == "") {
+						bad = fmt.Sprintf("one of the two queries failed: %q / %q", errs[0], errs[1])
+					} else if errs[0] == "" {
+						for idv, a := range res[0] {
+							if b, ok := res[1][idv]; !ok || a != b {
+								bad = fmt.Sprintf("row %s: %s vs %s", idv, a, b)
+								break
+							}
+						}
+						if bad == "" && len(res[0]) != len(res[1]) {
+							bad = "different numbers of rows"
+						}
+					}
+					if bad != "" {
+						meta.Direct = append(meta.Direct, DirectViolation{Key: pq[0], What: fmt.Sprintf("%s: %q and %q must give the same column (cpu %d): %s", pq[0], pq[1], pq[2], cpu, bad),
+							Case: map[string]interface{}{"query": pq[1], "reference_query": pq[2], "cpu": cpu, "rows": nrows, "difference": bad, "table": showCellRows(t.rows)}})
+					}
+				}
+			}
+			proc.ReferenceScope.CloseCurrentBlock()
 		}
 		_ = tx.ReleaseResources()
 		sc.Close()
